@@ -316,6 +316,63 @@ def _cseg_layout(repo, col):
 # ---------------------------------------------------------------------
 # sharded v1
 # ---------------------------------------------------------------------
+def _sizes_of_written(col, rule, close):
+    """Offsets in the shard index are running sums of the sizes of what was
+    written: inside each writing loop of Shard.close, every `n += len(B)` must
+    measure the very bytes handed to `write(...)` in that iteration (the
+    encoded buffer, not the one before encoding)."""
+    import copy as _cp
+    from .dataflow import _Subst
+
+    def subst(expr, env):
+        e = _Subst({k: v for k, v in env.items()}).visit(_cp.deepcopy(expr))
+        return e
+
+    loops = [st for st in stmts_of(close.node) if isinstance(st, ast.For)]
+    n = 0
+    for loop in loops:
+        env, writes, lens = {}, [], []
+        for st in loop.body:
+            if isinstance(st, ast.Assign) and len(st.targets) == 1 and \
+                    isinstance(st.targets[0], ast.Name):
+                env[st.targets[0].id] = subst(st.value, env)
+                continue
+            if isinstance(st, ast.For):
+                # for piece in E: write(piece)  ==  write(E)
+                ws = [c for c in calls_in(st) if isinstance(c.func, ast.Attribute)
+                      and c.func.attr == "write" and len(c.args) == 1]
+                if ws and isinstance(st.target, ast.Name) and all(
+                        norm(c.args[0]) == st.target.id for c in ws):
+                    writes.append(norm(subst(st.iter, env)))
+                continue
+            for c in calls_in(st):
+                if isinstance(c.func, ast.Attribute) and \
+                        c.func.attr == "write" and len(c.args) == 1:
+                    writes.append(norm(subst(c.args[0], env)))
+            if isinstance(st, ast.AugAssign) and isinstance(st.op, ast.Add):
+                for c in walk_local(st.value):
+                    if isinstance(c, ast.Call) and call_name(c) == "len" and \
+                            c.args:
+                        lens.append((norm(subst(c.args[0], env)), st))
+        if not writes or not lens:
+            continue
+        for ltxt, st in lens:
+            n += 1
+            ok = ltxt in writes
+            col.add(rule + ".size-of-written", close, norm(st)[:60], ok,
+                    "the size added to the running offset is that of the "
+                    "bytes written" if ok else
+                    "the running offset grows by len(%s) but the bytes "
+                    "written in this iteration are %s: with an index / data "
+                    "encoding that changes the length (gzip) every later "
+                    "byte range in the shard index is wrong"
+                    % (ltxt[:60], [w[:60] for w in writes]), node=st)
+    if n == 0:
+        col.add(rule + ".size-of-written", close, "offset bookkeeping", True,
+                "no loop that both writes and accumulates len(...) was "
+                "recognised in Shard.close", undecided=True)
+
+
 def sharded_layout(repo, col, parts=("index", "name")):
     rule = "E-SPEC.sharded"
     if "index" not in parts:
@@ -328,8 +385,9 @@ def sharded_layout(repo, col, parts=("index", "name")):
         raise AnalysisError("anchor vanished: struct.pack in Shard.close")
     for c in packs:
         fmt = c.args[0].value if isinstance(c.args[0], ast.Constant) else None
-        col.add(rule + ".index-format", close, norm(c)[:60], fmt == "<Q",
-                "" if fmt == "<Q" else "shard index entries are little-endian "
+        okf = isinstance(fmt, str) and re.match(r"^<Q+$", fmt) is not None
+        col.add(rule + ".index-format", close, norm(c)[:60], okf,
+                "" if okf else "shard index entries are little-endian "
                 "uint64 ('<Q'), found %r" % fmt, node=c)
         dep = names_in(c.args[1]) if len(c.args) > 1 else set()
         defs = local_defs(close.node)
@@ -342,6 +400,7 @@ def sharded_layout(repo, col, parts=("index", "name")):
                 else "shard index offsets include the index length: the "
                 "format measures them from the end of the shard index",
                 node=c)
+    _sizes_of_written(col, rule, close)
     # slot placement by minishard number
     txt = ftext(close)
     owner = enclosing_stmt_map(close.node)
@@ -364,7 +423,10 @@ def sharded_layout(repo, col, parts=("index", "name")):
                 "16" in norm(st.targets[0].slice) and \
                 "sh_idx" in norm(st.targets[0].value):
             positional = True
-    col.add(rule + ".slot", close, "entry position depends on minishard number",
+    # (the package's own reader finds minishards by their first id, so the
+    # slot is a requirement of C04 - an external reader - only)
+    if "no-slot" not in parts:
+      col.add(rule + ".slot", close, "entry position depends on minishard number",
             positional,
             "" if positional else "shard index entries are appended in sorted "
             "key order and the remainder padded: the entry of minishard m "
